@@ -4,6 +4,7 @@ import (
 	"fmt"
 	"strconv"
 	"strings"
+	"unicode"
 )
 
 type TokenType byte
@@ -409,7 +410,11 @@ func isFloat(val string) bool {
 }
 
 func buildToken(curr string, pos int) *Token {
-	curr = strings.ToLower(strings.TrimSpace(curr))
+	// The blanks that are trimmed in front of the word (tab, line end) are
+	// not part of the token, its text begins behind them
+	word := strings.TrimLeftFunc(curr, unicode.IsSpace)
+	pos += len(curr) - len(word)
+	curr = strings.ToLower(strings.TrimSpace(word))
 	if len(curr) == 0 {
 		return nil
 	}
